@@ -472,7 +472,29 @@ def run(p, led, tier):
         if okk:
             led.ok("C10-R6", key, where(m, ins[0]), f"`{short(ins[0])}`")
         else:
-            led.fail("C10-R6", key, where(m, m.node), "substring arm compares without normalising the case of both operands")
+            # the normalisation may sit behind a helper or a memo: decide by folding the matcher on literal witnesses
+            # (constant propagation through the repo's own code; no symbolic part) — case changes on either side and
+            # embedding in other text must still match, an unrelated text must not
+            wit = [("Drop Table", "xx DROP TABLE yy", True), ("drop table", "Drop tAbLe", True), ("DROP", "please drop it", True), ("ignore previous", "IGNORE PREVIOUS instructions", True),
+                   ("ß", "STRASSE", None), ("abc", "abd", False), ("abc", "", False)]
+            bad_w = []
+            for pat_, content_, want in wit:
+                if want is None:
+                    continue
+                def go_w(o, _p=pat_, _c=content_):
+                    it = Interp(p, o)
+                    sg = it.instantiate(cls_, [_p] + ([it.enum_member(TL, levels[-1]), "w"] if cls_ is tsig else [Unknown("cat"), "w"]), {})
+                    return it.call_fi(m, [sg, _c], {})
+                try:
+                    outs = {r for _, r in explore(go_w, max_paths=20)}
+                except (Imprecise, PyRaise) as e_:
+                    outs = {f"not decidable: {e_}"}
+                if outs != {want}:
+                    bad_w.append(f"pattern {pat_!r} on {content_!r}: {sorted(map(str, outs))}, expected {want}")
+            if bad_w:
+                led.fail("C10-R6", key, where(m, m.node), "substring arm compares without normalising the case of both operands: " + bad_w[0])
+            else:
+                led.ok("C10-R6", key, where(m, m.node), "folded on literal witnesses: case changes of pattern and content and embedding in other text still match")
         # shipped regexes
         owner = p.cls(table[0], rel)
         lst = owner.assigns.get(table[1])
